@@ -65,6 +65,7 @@ def atoms(nm: Namer) -> Dict[str, T]:
         "con_int": Con(INT, (("min", 0), ("max", 2), ("mult_of", 2))),
         "con_str": Con(STR, (("min_len", 1), ("max_len", 2), ("pattern", "^a"))),
         "con_float": Con(FLOAT, (("exc_min", 0), ("exc_max", 2))),
+        "tuple0": Tup(()),  # Tuple[()]: the empty tuple only
     }
 
 
@@ -314,6 +315,33 @@ def object_shapes(nm: Namer) -> Dict[str, Callable[[T, Ctx], Optional[T]]]:
 
     def generic(x, c):
         o = Obj("dataclass", nm("O"), (F("a", TVar("TV")), F("b", Coll("list", TVar("TV")), factory="list", default_value=[])), generic_params=("TV",))
+        return Gen(o, (x,))
+
+    def generic_swap(x, c):
+        # class O(GB[TW, TV], Generic[TV, TW]): the parameters of the subclass are NOT in the order of their first
+        # appearance in the bases; O[x, str] has a: str, b: x
+        base = Obj("dataclass", nm("GB"), (F("a", TVar("TV")), F("b", TVar("TW"))), generic_params=("TV", "TW"))
+        o = Obj(
+            "dataclass",
+            nm("O"),
+            (F("a", TVar("TW"), inherited=True), F("b", TVar("TV"), inherited=True), F("c", INT, default="0", has_default=True, default_value=0)),
+            generic_params=("TV", "TW"),
+            bases=(f"{base.name}[TW, TV]",),
+            base_specs=(base,),
+        )
+        return Gen(o, (x, STR))
+
+    def generic_nested(x, c):
+        # class O(GB[List[TV]], Generic[TV]): a type variable nested inside the argument of the base
+        base = Obj("dataclass", nm("GB"), (F("a", TVar("TV")),), generic_params=("TV",))
+        o = Obj(
+            "dataclass",
+            nm("O"),
+            (F("a", Coll("list", TVar("TV")), inherited=True), F("c", INT, default="0", has_default=True, default_value=0)),
+            generic_params=("TV",),
+            bases=(f"{base.name}[List[TV]]",),
+            base_specs=(base,),
+        )
         return Gen(o, (x,))
 
     def rec_opt(x, c):
